@@ -112,6 +112,9 @@ theorem C05_history_isolated_tree_ok :
     | register rt =>
       simp only [C05.runSteps, C05.step, C05.expected]
       exact ih _ hok
+    | borrow id prog =>
+      simp only [C05.runSteps, C05.step, C05.expected]
+      exact ih _ hok
     | request r =>
       obtain ⟨hwf, hok'⟩ := hok
       simp only [C05.runSteps, C05.step, C05.expected]
@@ -140,6 +143,10 @@ theorem tablesOk_of_patterns : ∀ (steps : List C05.Step) (routes : List Route)
       simp only [TablesOk]
       apply ih
       simpa [regsOf, List.append_assoc] using h
+    | borrow id prog =>
+      simp only [TablesOk]
+      simp only [regsOf] at h
+      exact ih routes h
     | request r =>
       simp only [TablesOk]
       simp only [regsOf] at h
